@@ -199,6 +199,19 @@ pub fn fixed_frame_roundtrip(kind: u8, a: u64, b: u64, c: u64, d: u64, small: bo
     1
 }
 
+/// Native replay body of E2 query e2_frame_field_order: the round trip above for every fixed-layout
+/// frame kind over a handful of field values with pairwise distinct fields (loops: native only).
+pub fn fixed_frame_roundtrip_sweep(salt: u64) -> u32 {
+    let s = salt & 0xf;
+    for kind in 0..12u8 {
+        for (a, b) in [(0x11u64, 0x22u64), (0x10, 0x23), (0x02, 0x01), (0x03, 0x00)] {
+            fixed_frame_roundtrip(kind, a ^ (s & 0xe), b, if kind == 9 { 1 } else { 0x33 }, 0x3c, true);
+        }
+        fixed_frame_roundtrip(kind, 0x3f_ffff_ff11, 0x1234 + s, if kind == 9 { 1 } else { 0x7 }, 0x3f00_0000_0000_0001, false);
+    }
+    1
+}
+
 /// C10 / C03.g: NEW_CONNECTION_ID round-trip for every CID length 1..=20 and every content.
 pub fn new_cid_roundtrip(sequence: u64, retire_prior_to: u64, cid: [u8; 20], len: usize, token: [u8; 16]) -> u32 {
     if sequence >= V62 || retire_prior_to > sequence || len == 0 || len > 20 {
